@@ -7,7 +7,7 @@ META = {
                    "(EX1–EX5: enqueue only at waiting_on==0 after the decrement, start only under exe_deps_succeeded(), "
                    "SUCCEEDED only after finish_execution returned) on every path of the CFGs. Decides the structural "
                    "necessary conditions listed in DESIGN §4.C01, not the run-time ordering itself.",
-    "rules": ["PL1", "PL2", "PL3", "PL10", "W1(planner)", "PL5", "EX1", "EX2", "EX3", "EX4", "EX5", "EX6", "SGc", "RT1"],
+    "rules": ["PL1", "PL2", "PL3", "PL10", "W1(planner)", "PL5", "EX1", "EX2", "EX3", "EX4", "EX5", "EX6", "SGc", "RT1", "RT10", "SG8", "INF1"],
     "assumptions": ["CPython statement semantics", "an op leaves the in-flight set only when its own pid was reaped (C09)",
                     "hand argument of DESIGN §4.C01 that the rules imply the ordering by induction on the op graph"],
     "trusted": ["ast parser", "own call resolver (unresolved calls counted in coverage.analysed)"],
@@ -27,3 +27,9 @@ def run(A, rep, tier):
     # 'exited with status 0': a signalled child must never be recorded as 0, and a non-zero code must fail the op
     R.rule_sgc(A, rep)
     R.rule_rt1(A, rep)
+    # "has exited with status 0" is only as good as the status attribution: one reaper, and a status is given to the
+    # process whose pid was reaped (a dependency must never be handed another child's — or a made-up — status 0)
+    from . import reaping as RP
+    RP.rule_rt10(A, rep)
+    RP.rule_sg8(A, rep)
+    RP.rule_inf1(A, rep)
